@@ -36,8 +36,9 @@ func suiteSerde(rn *runner, r *rng, tier string) {
 		}
 		cfg := defaultCfg(cr)
 		cfg.maxDepth = 1 + cr.intn(4)
-		nd := cr.chance(1, 3)
+		nd := cr.chance(1, 3) && i%150 != 7
 		var text string
+		repetitive := false
 		switch {
 		case nd:
 			text, _ = cr.ndjson(cfg, 1+cr.intn(5), false)
@@ -54,6 +55,13 @@ func suiteSerde(rn *runner, r *rng, tier string) {
 			}
 			b.WriteByte(']')
 			text = b.String()
+		case i%150 == 7:
+			// large and highly compressible: a few dozen compressed bytes declare hundreds of thousands of tape entries
+			// (the declared sizes are far beyond any fixed multiple of the input length)
+			k := []int{60000, 100000, 250000}[cr.intn(3)]
+			el := []string{"0", "1234567", "true", "\"a\"", "null", "{}"}[cr.intn(6)]
+			text = "[" + strings.Repeat(el+",", k-1) + el + "]"
+			repetitive = true
 		case cr.chance(1, 8):
 			// tags outnumber values: varint size classes of the two blocks differ
 			text = cr.literals([]int{100, 120, 125, 127, 128, 129, 200, 1000, 2000, 16384, 16500}[cr.intn(11)] + cr.intn(3))
@@ -87,6 +95,15 @@ func suiteSerde(rn *runner, r *rng, tier string) {
 		m1, m2 := modes[cr.intn(4)], modes[cr.intn(4)]
 		nextSerde = serdeOpts{m1: m1, m2: m2}
 		reuseKind := cr.intn(3)
+		if repetitive {
+			if m1 == simdjson.CompressNone {
+				m1 = simdjson.CompressDefault
+				nextSerde.m1 = m1
+			}
+			if cr.chance(2, 3) {
+				reuseKind = 0 // fresh Serializer and nil destination: nothing grown by earlier documents
+			}
+		}
 		if reuseKind >= 1 {
 			nextSerde.s1, nextSerde.s2 = sA, sB
 		}
